@@ -260,7 +260,9 @@ def dbl_entries(blobs):
             if f in (float("inf"), float("-inf")) or f != f:
                 continue
             # y: the nearest double as its shortest round-trip decimal; ex: the decimal is exactly that double
-            seen[key] = {"x": x, "y": dec_of_float(f), "ex": Decimal(f) == Decimal(lex)}
+            # yi: what jawk makes of that double - a whole double inside the integer range becomes the integer it is exactly (From<f64>)
+            whole = f == int(f) and -(2 ** 63) < f < 2 ** 64
+            seen[key] = {"x": x, "y": dec_of_float(f), "ex": Decimal(f) == Decimal(lex), "yi": dec_of_lexeme(str(int(f))) if whole else dec_of_float(f)}
     return list(seen.values())
 
 
